@@ -699,7 +699,9 @@ def check_run(ctx, cfg, res, model, stream):
         wm = 0.0
         if not all(per):
             wm = wall_mach(step["dump"][0], coords, ncell, per, g) if (coords is not None and step["dump"][0]) else 9.9
-            walls_ok = wm < 1.0
+            # the per-face limiter may raise the normal velocity at the wall to twice the cell value and the half-step
+            # prediction changes the state by O(CFL): cell-centred Mach < 0.6 keeps the reconstructed one below 1.5
+            walls_ok = wm < 0.6
         ctx.branch("periodic-box" if all(per) else ("walls-subsonic" if walls_ok else "walls-supersonic"))
         clamp = t1["mins"][0] <= 0.0 or t1["mins"][1] <= 0.0
         ctx.branch("clamp-fired" if clamp else "no-clamp")
@@ -752,7 +754,7 @@ def run(ctx):
     ctx.assumptions += [
         "theorems are about exact real arithmetic; floating-point round-off is bounded empirically by the tolerances below",
         "totals_conserved: periodic box, no gravity / energy source term, no positivity clamp firing (the steps in which a clamp fires are excluded from the conservation oracle, as in the property statement)",
-        "reflective_no_mass_energy: reconstructed wall-normal velocity < 1.5 c_s (checked on runs whose cell-centred wall Mach number before the step is < 1)",
+        "reflective_no_mass_energy: reconstructed wall-normal velocity < 1.5 c_s (checked on runs whose cell-centred wall Mach number before the step is < 0.6)",
         "finiteness (NaN/Inf) is a floating-point notion: searched on the real runs and cell-level cases, not proved",
         "the CFL time step is the one the code chooses; the theorems hold for every dt",
         "the Riemann solver is uninterpreted in the conservation theorems (any flux function); only reflective walls use C05's HLLC model",
